@@ -139,6 +139,8 @@ def rewrite(rows_by_sym, rw):
 class World(object):
     """A directory of CSV files for one set of rows + the quote oracle over them."""
 
+    extra = None        # optional lower-priority World: the handler asks it where this one has no value yet
+
     def __init__(self, rows_by_sym, adjust, shuffle_seed=None):
         self.rows = rows_by_sym
         self.adjust = adjust
@@ -152,13 +154,16 @@ class World(object):
 
     def quote(self, asset, t):
         """Exact point-in-time price (Fraction) or None (NaN)."""
-        if asset not in self.ev:
-            return None
-        return datawl.expected(self.ev[asset], t)[0]
+        q = datawl.expected(self.ev[asset], t)[0] if asset in self.ev else None
+        if q is None and self.extra is not None:
+            return self.extra.quote(asset, t)
+        return q
 
     def source_of(self, asset, value):
         """(date, field) of the cell a returned number comes from, or None."""
         a, e = datawl.decode({asset: self.ev.get(asset, [])}, value, asset)
+        if e is None and self.extra is not None:
+            return self.extra.source_of(asset, value)
         return None if e is None else (e[4][0], e[4][1], e[0])
 
     def close(self):
